@@ -36,10 +36,10 @@ def depth_of(m, target):
     return best[0] if best[0] is not None else 0
 
 
-def check(stats, m, env, info=None, sub="domain"):
+def check(stats, m, env, info=None, sub="domain", wide=False):
     stats.case()
     info = info or {}
-    r, ctx = RE.evaluate(m, env)
+    r, ctx = RE.evaluate(m, env, lo=1e-290, hi=1e290) if wide else RE.evaluate(m, env)
     stats.count("ref:" + r.st)
     if info.get("mask"):
         stats.count("mask:" + info["mask"] + ":" + r.st)
@@ -137,6 +137,22 @@ def make_boundary(stats):
     return test
 
 
+def make_extreme(stats):
+    """Tiny-but-non-zero and huge arguments of constrained nodes (1e-250 .. 1e250): defined, must not raise; and
+    exact zeros next to them: must raise."""
+    @given(st.data())
+    def test(data):
+        names = data.draw(S.name_lists(1, 2))
+        env = {n: data.draw(S.extreme_values()) for n in names}
+        arg = data.draw(S.trees(names, depth=1, leaf=S.extreme_leaves(names)))
+        node = data.draw(BD.constrained(names, arg))
+        outer = data.draw(S.trees(names, depth=1, leaf=S.extreme_leaves(names)))
+        ps = M.paths(outer, limit=30)
+        m = M.replace(outer, data.draw(st.sampled_from(ps)), node)
+        check(stats, m, env, {"kind": node[0]}, sub="extreme", wide=True)
+    return test
+
+
 def make_masked(stats):
     @given(st.data())
     def test(data):
@@ -151,14 +167,14 @@ def parts(tier):
     return [hyp_part("general", make_general, int(n * 0.25)),
             hyp_part("boundary", make_boundary, int(n * 0.3)),
             hyp_part("masked", make_masked, int(n * 0.3)),
-            hyp_part("sequence", make_sequence, int(n * 0.15))]
+            hyp_part("sequence", make_sequence, int(n * 0.15)), hyp_part("extreme", make_extreme, int(n * 0.1))]
 
 
 def replay(case):
     if case.get("sub") == "sequence":
         check_sequence(Stats(), case_model(case), [M.point_from_json(p) for p in case["points"]])
         return
-    check(Stats(), case_model(case), case_point(case), case.get("info"), sub=case.get("sub", "domain"))
+    check(Stats(), case_model(case), case_point(case), case.get("info"), sub=case.get("sub", "domain"), wide=case.get("sub") == "extreme")
 
 
 def self_test(tier, agg):
